@@ -190,6 +190,10 @@ fn main() {
                 b["shim"] = json!(sc["shim"]["kind"].as_str().unwrap_or("program"));
                 b["tls"] = json!(sc["shim"]["tls"].as_bool().unwrap_or(false));
                 b["ctls"] = json!(sc["client"]["tls"].as_bool().unwrap_or(false));
+                b["ccert"] = json!(
+                    sc["client"]["cert"].as_bool().unwrap_or(false)
+                        && sc["shim"]["client_cert"].as_bool().unwrap_or(false)
+                );
                 b["auth"] = json!(sc["shim"]["auth"].as_str().unwrap_or("accept"));
                 b["mode"] = json!(sc["client"]["mode"].as_str().unwrap_or("pipelined"));
             }
